@@ -144,7 +144,7 @@ func (ex *Exec) policyOf(spec *HarnessSpec, kind string) string {
 		}
 	}
 	switch kind {
-	case "panic":
+	case "panic", "stackdepth":
 		return "violation"
 	case "infeasible":
 		return "ok"
